@@ -125,3 +125,22 @@ func SortSets(v interface{}) interface{} {
 
 // CanonSet is Canon with arrays of scalars treated as sets.
 func CanonSet(v interface{}) string { return Canon(SortSets(Parse(Canon(v)))) }
+
+// MapKeyList renders id -> []canonical-binding maps deterministically.
+func MapKeyList(m map[string][]string) string {
+	ks := make([]string, 0, len(m))
+	for k := range m {
+		ks = append(ks, k)
+	}
+	sort.Strings(ks)
+	var b strings.Builder
+	b.WriteString("{")
+	for i, k := range ks {
+		if i > 0 {
+			b.WriteString(";")
+		}
+		b.WriteString(k + "=" + MultisetKey(m[k]))
+	}
+	b.WriteString("}")
+	return b.String()
+}
